@@ -977,7 +977,9 @@ def gen_sum_spec(rng):
              'se': None if rng.random() < 0.3 else [dv() for _ in range(npar)],
              'rse': None if rng.random() < 0.3 else [dv() for _ in range(npar)],
              'minsucc_iter': [rng.random() < 0.6 for _ in range(k)], 'evaluation': [rng.random() < 0.3 for _ in range(k)],
-             'nerr': rng.choice([0, 0, 1, 2]), 'nwarn': rng.choice([0, 1, 3])}
+             'nerr': rng.choice([0, 0, 1, 2]), 'nwarn': rng.choice([0, 1, 3]),
+             'runtime_total': rng.choice(['nan', '1.5', '12', '0.25']),
+             'est_rt': None if rng.random() < 0.4 else [rng.choice(['nan', '0.5', '2', '7.25', '3']) for _ in range(k)]}
         if rng.random() < 0.75 and (r['ofv_iter'] is None) != (r['pe_iter'] is None):      # usually both tables or none
             r['ofv_iter'] = r['pe_iter'] = None
         if r['pe_iter'] is not None and rng.random() < 0.07:
@@ -1016,7 +1018,10 @@ def observe_sum(spec):
         k = len(r['evaluation'])
         kw = dict(ofv=fl(r['ofv']), minimization_successful=r['minsucc'], parameter_estimates=pd.Series([fl(v) for v in r['pe']], index=pn),
                   minimization_successful_iterations=pd.Series(r['minsucc_iter'], index=range(1, k + 1), dtype=bool),
-                  evaluation=pd.Series(r['evaluation'], index=range(1, k + 1), dtype=bool), log=log, runtime_total=1.0, warnings=[])
+                  evaluation=pd.Series(r['evaluation'], index=range(1, k + 1), dtype=bool), log=log,
+                  runtime_total=fl(r['runtime_total']), warnings=[])
+        if r['est_rt'] is not None:
+            kw['estimation_runtime_iterations'] = pd.Series([fl(v) for v in r['est_rt']], index=range(1, k + 1))
         if r['ofv_iter'] is not None:
             kw['ofv_iterations'] = pd.Series([fl(v) for _, _, v in r['ofv_iter']], name='OFV', index=pd.MultiIndex.from_tuples(
                 [(st, it) for st, it, _ in r['ofv_iter']], names=['steps', 'iteration']))
@@ -1035,7 +1040,8 @@ def observe_sum(spec):
                      f"{'None' if r['se'] is None else '(Some ' + olist(r['se'], pn) + ')'} "
                      f"{'None' if r['rse'] is None else '(Some ' + olist(r['rse'], pn) + ')'} "
                      f"{ct.lst([ct.boolean(b) for b in r['minsucc_iter']])} {ct.lst([ct.boolean(b) for b in r['evaluation']])} "
-                     f"{ct.nat(r['nerr'])} {ct.nat(r['nwarn'])})))")
+                     f"{ct.nat(r['nerr'])} {ct.nat(r['nwarn'])} {oq(fl(r['runtime_total']))} "
+                     f"{'None' if r['est_rt'] is None else '(Some ' + ct.lst([oq(fl(v)) for v in r['est_rt']]) + ')'})))")
     with warnings.catch_warnings():
         warnings.simplefilter('ignore')
         try:
@@ -1051,7 +1057,8 @@ def observe_sum(spec):
                 ev = 'None' if step is None else f"(Some {ct.boolean(row['run_type'] == 'evaluation')})"
                 rows.append(f"(mkSrow {names.p(name)} {'None' if step is None else '(Some ' + ct.nat(int(step)) + ')'} {ev} "
                             f"{ct.boolean(bool(row['minimization_successful']))} {ct.nat(int(row['errors_found']))} "
-                            f"{ct.nat(int(row['warnings_found']))} {oq(row['ofv'])} {ct.lst(cols)})")
+                            f"{ct.nat(int(row['warnings_found']))} {oq(row['ofv'])} {ct.lst(cols)} {oq(row['runtime_total'])} "
+                            f"{oq(row['estimation_runtime'])})")
             obs = '(Ok ' + ct.lst(rows) + ')'
         except Exception as e:
             obs = f'(Err {errclass(e)})'
@@ -1075,6 +1082,148 @@ def summary_batch(ctx, n):
     ctx.coverage['evaluations'] += len(specs)
     ctx.log('summarize_modelfit_results cases done', ctx.coverage['summary_cases'])
     return bad
+
+
+_MFLC = {}
+MFL_ABS = [['FO'], ['FO', 'ZO'], ['FO', 'ZO', 'SEQ-ZO-FO'], ['FO', 'INST'], ['INST', 'FO', 'ZO', 'SEQ-ZO-FO'], ['ZO', 'SEQ-ZO-FO']]
+MFL_EL = [['FO'], ['FO', 'MM'], ['MM', 'FO'], ['FO', 'MM', 'MIX-FO-MM'], ['MIX-FO-MM', 'FO'], ['MM', 'MIX-FO-MM']]
+MFL_TR = ['TRANSITS(0)', 'TRANSITS([0,1,3],*)', 'TRANSITS([0,3],DEPOT)', 'TRANSITS([0,1,3,10],NODEPOT)', 'TRANSITS([1,3],*)', None]
+MFL_PE = ['PERIPHERALS(0)', 'PERIPHERALS(0..1)', 'PERIPHERALS(0..2)', 'PERIPHERALS(1..2)', None]
+MFL_LAG = ['LAGTIME(OFF)', 'LAGTIME([OFF,ON])', 'LAGTIME(ON)', None]
+
+
+def mfl_candidates():
+    if _MFLC:
+        return _MFLC
+    from pharmpy.modeling import (add_lag_time, add_peripheral_compartment, load_example_model, set_first_order_absorption,
+                                  set_michaelis_menten_elimination, set_mixed_mm_fo_elimination, set_seq_zo_fo_absorption,
+                                  set_transit_compartments, set_zero_order_absorption)
+    from pharmpy.tools.mfl.parse import ModelFeatures, get_model_features, parse
+    m = load_example_model('pheno')
+    with warnings.catch_warnings():
+        warnings.simplefilter('ignore')
+        fo = set_first_order_absorption(m)
+        C = {'inst': m, 'fo': fo, 'zo': set_zero_order_absorption(m), 'seq': set_seq_zo_fo_absorption(m),
+             'fo_lag': add_lag_time(fo), 'fo_mm': set_michaelis_menten_elimination(fo), 'fo_mix': set_mixed_mm_fo_elimination(fo),
+             'fo_p1': add_peripheral_compartment(fo), 'fo_p2': add_peripheral_compartment(add_peripheral_compartment(fo)),
+             'fo_t1': set_transit_compartments(fo, 1), 'fo_t3': set_transit_compartments(fo, 3),
+             'fo_t3nd': set_transit_compartments(fo, 3, keep_depot=False),
+             'seq_lag_p1': add_peripheral_compartment(add_lag_time(set_seq_zo_fo_absorption(m)))}
+        for k, mm in C.items():
+            cm = parse(get_model_features(mm), mfl_class=True)       # as calculate_bic_penalty prepares the candidate
+            cm = ModelFeatures.create(absorption=cm.absorption, elimination=cm.elimination, transits=cm.transits,
+                                      peripherals=cm.peripherals, lagtime=cm.lagtime)
+            _MFLC[k] = (mm, cm)
+    return _MFLC
+
+
+def mfl_in_term(ss, cm):
+    """the EXPANDED attributes of the search space and of the candidate (real ModelFeatures objects)"""
+    AB = {'FO': 'AB_FO', 'ZO': 'AB_ZO', 'SEQ-ZO-FO': 'AB_SEQ', 'INST': 'AB_INST'}
+    EL = {'FO': 'EL_FO', 'MM': 'EL_MM', 'MIX-FO-MM': 'EL_MIX'}
+    one = lambda a: a[0] if isinstance(a, tuple) else a
+    def attr(name):
+        a = getattr(cm, name)
+        if not a:
+            return None, None
+        return one(a), one(getattr(ss, name))
+    a, sa = attr('_absorption')
+    ab = 'None' if a is None else f"(Some ({ct.lst([AB[x.name] for x in sa.modes])}, {AB[a.modes[0].name]}))"
+    e, se = attr('_elimination')
+    el = 'None' if e is None else f"(Some ({ct.lst([EL[x.name] for x in se.modes])}, {EL[e.modes[0].name]}))"
+    t, st = attr('_transits')
+    hd = lambda x: 'DEPOT' in [md.name for md in x.depot]
+    tr = 'None' if t is None else (f"(Some ({ct.nat(len(st))}, {ct.boolean(hd(st.eval))}, {ct.lst([ct.z(int(c)) for c in st.counts])}, "
+                                   f"{ct.boolean(hd(t))}, {ct.z(int(t.counts[0]))}))")
+    pe_, sp = attr('_peripherals')
+    pe = 'None' if pe_ is None else f"(Some ({ct.nat(len(sp))}, {ct.z(int(pe_.counts[0]))}))"
+    l, sl = attr('_lagtime')
+    la = 'None' if l is None else f"(Some ({ct.nat(len(sl))}, {ct.boolean(l.modes[0].name == 'ON')}))"
+    return f'(mkMfl {ab} {el} {tr} {pe} {la})'
+
+
+def mfl_batch(ctx, n):
+    """calculate_bic_penalty / get_penalty_parameters_mfl for MFL search-space strings"""
+    from pharmpy.tools.mfl.parse import parse
+    run = impl()['run']
+    C = mfl_candidates()
+    terms, nerr = [], 0
+    for _ in range(n):
+        parts = ['ABSORPTION(' + (lambda l: l[0] if len(l) == 1 else '[' + ','.join(l) + ']')(ctx.rng.choice(MFL_ABS)) + ')',
+                 'ELIMINATION(' + (lambda l: l[0] if len(l) == 1 else '[' + ','.join(l) + ']')(ctx.rng.choice(MFL_EL)) + ')']
+        parts += [x for x in (ctx.rng.choice(MFL_TR), ctx.rng.choice(MFL_PE), ctx.rng.choice(MFL_LAG)) if x]
+        s = ';'.join(parts)
+        key = ctx.rng.choice(list(C))
+        mm, cm = C[key]
+        Ep = ctx.rng.choice([None, 1.0, 2.0, 2.0, 0.5, 4.0, 8.0])
+        with_base = ctx.rng.random() < 0.05
+        ss = parse(s, mfl_class=True)
+        with warnings.catch_warnings():
+            warnings.simplefilter('ignore')
+            try:
+                c = run.get_penalty_parameters_mfl(ss, cm)
+                counts = f'(Some ({ct.z(int(c[0]))}, {ct.z(int(c[1]))}))'
+            except Exception:
+                c, counts = None, 'None'
+            try:
+                v = run.calculate_bic_penalty(mm, s, base_model=mm if with_base else None, E_p=Ep)
+                obs = f'(Ok {ct.q(qf(v))})'
+            except Exception as e:
+                obs = f'(Err {errclass(e)})'
+                nerr += 1
+        xs = {F(1)}
+        if Ep and c is not None:
+            xs |= {F(int(c[0])) / F(Ep), F(1) / F(Ep)}
+        logs = ct.lst([f'({ct.q(x)}, ' + ('None' if x <= 0 else f'(Some {ct.q(F(math.log(float(x))))})') + ')' for x in sorted(xs)])
+        terms.append(f"(mkMcase {mfl_in_term(ss, cm)} {ct.boolean(with_base)} {'None' if Ep is None else '(Some ' + ct.q(F(Ep)) + ')'} "
+                     f"(Some (1#1)%Q) {logs} {counts} {obs})")
+    verdicts = ctx.run_cases('mfl', 'C19.Model C19.Penalty', 'mcase', terms, 'mverdict', shard=200)
+    bad = sum(1 for v in verdicts if v)
+    if bad:
+        ctx.broken.append(f'correspondence C19 calculate_bic_penalty (MFL search space) model vs implementation on {bad} of {n} cases')
+    ctx.coverage['penalty_mfl_cases'] = {'cases': n, 'errors': nerr, 'disagreements': bad}
+    ctx.coverage['evaluations'] += n
+    ctx.log('calculate_bic_penalty (MFL) cases done', ctx.coverage['penalty_mfl_cases'])
+
+
+def errors_batch(ctx, n):
+    """summarize_errors_from_entries on synthetic logs, compared inside Coq (Summary.summarize_errors)"""
+    from pharmpy.workflows import ModelEntry, ModelfitResults
+    from pharmpy.workflows.log import Log
+    run = impl()['run']
+    P = pool()
+    allnames = ['ma', 'mb', 'mc', 'md', 'me']          # numbered in string order
+    nid = {n_: ct.pos(i + 1) for i, n_ in enumerate(allnames)}
+    msgs = ct.Names()
+    terms = []
+    for _ in range(n):
+        chosen = ctx.rng.sample(allnames, ctx.rng.choice([1, 2, 3, 4]))
+        mes, ents = [], []
+        for nm in chosen:
+            model = P['base'].replace(name=nm)
+            if ctx.rng.random() < 0.15:
+                mes.append(ModelEntry.create(model=model, modelfit_results=None))
+                ents.append(f'({nid[nm]}, None)')
+                continue
+            log, items = Log(), []
+            for i in range(ctx.rng.choice([0, 1, 2, 3, 4])):
+                cat = ctx.rng.choice(['ERROR', 'WARNING'])
+                msg = ctx.rng.choice(['boom', 'rounding', 'zero gradient', 'x'])
+                log = log.log_error(msg) if cat == 'ERROR' else log.log_warning(msg)
+                items.append(f"({'LError' if cat == 'ERROR' else 'LWarning'}, {msgs.p(msg)})")
+            mes.append(ModelEntry.create(model=model, modelfit_results=ModelfitResults(ofv=1.0, log=log)))
+            ents.append(f'({nid[nm]}, Some {ct.lst(items)})')
+        df = run.summarize_errors_from_entries(mes)
+        obs = [f"(mkErow {nid[idx[0]]} {'LError' if idx[1] == 'ERROR' else 'LWarning'} {ct.nat(int(idx[2]))} {msgs.p(row['message'])})"
+               for idx, row in df.iterrows()]
+        terms.append(f'(mkEcase {ct.lst(ents)} {ct.lst(obs)})')
+    verdicts = ctx.run_cases('errors', 'C19.Model C19.Summary', 'ecase', terms, 'everdict', shard=200)
+    bad = sum(1 for v in verdicts if v)
+    if bad:
+        ctx.broken.append(f'correspondence C19 summarize_errors model vs implementation on {bad} of {n} cases')
+    ctx.coverage['summarize_errors_cases'] = {'cases': n, 'disagreements': bad}
+    ctx.coverage['evaluations'] += n
+    ctx.log('summarize_errors cases done', ctx.coverage['summarize_errors_cases'])
 
 
 # ------------------------------------------------------------------ classification
@@ -1210,8 +1359,8 @@ def run(ctx):
     reg = sorted((VERIF / 'regress' / 'C19').glob('*.json'))
     specs = [json.loads(p.read_text()) for p in reg]
     specs = [s['spec'] if 'spec' in s else s for s in specs]
-    n = 380 if ctx.tier == 'quick' else 4800
-    nm = 50 if ctx.tier == 'quick' else 500
+    n = 300 if ctx.tier == 'quick' else 3600
+    nm = 40 if ctx.tier == 'quick' else 400
     specs += [gen_spec(ctx.rng) for _ in range(n)] + [gen_spec(ctx.rng, 'malformed') for _ in range(nm)]
     kept, verdicts, infos, stats = run_specs(ctx, specs, 'gen')
     ctx.log('generated cases done', stats)
@@ -1244,6 +1393,8 @@ def run(ctx):
     categorize_batch(ctx)
     penalty_batch(ctx, 150 if ctx.tier == 'quick' else 2000)
     summary_batch(ctx, 120 if ctx.tier == 'quick' else 1500)
+    errors_batch(ctx, 80 if ctx.tier == 'quick' else 1000)
+    mfl_batch(ctx, 30 if ctx.tier == 'quick' else 250)
     try:
         from harness.props import c19_stats
         c19_stats.run(ctx)
@@ -1252,6 +1403,14 @@ def run(ctx):
 
 
 def replay(ctx, rep):
+    if 'stats_model' in rep:
+        from harness.props import c19_stats
+        names = ct.Names()
+        k = rep['stats_model']['kind']
+        term = c19_stats.model_case(random.Random(rep['stats_model']['seed']), k, lambda x: names.p(str(x)))
+        v = ctx.run_cases('replay', 'C19.Model C19.Stats', 'stcase', [term], 'stverdict')[0]
+        print('stats_model', rep['stats_model'], 'tags', v)
+        return 1 if v else 0
     if 'stats' in rep:
         from harness.props import c19_stats
         n, fails = c19_stats.run_one(rep['stats']['part'], rep['stats']['seed'])
